@@ -23,8 +23,6 @@
 # THE SOFTWARE.
 
 
-from pprint import pformat
-
 try:
     # Python 3
     from functools import reduce
@@ -49,10 +47,12 @@ def toposort2(data):
         # set happens to iterate in.
         ordered = [item for item,dep in data.items() if len(dep) == 0]
         if len(ordered) == 0:
+            # what's left, if anything, depends on itself through a cycle:
+            # there's no right order for these, so any stable one will do.
+            if len(data) > 0:
+                yield sorted(data, key=lambda x:repr(x))
             break
         yield sorted(ordered, key=lambda x:repr(x))
         ordered = set(ordered)
         data = dict([(item, (dep - ordered)) for item,dep in data.items()
                                                         if item not in ordered])
-
-    assert not data, "A cyclic dependency exists amongst\n%s" % pformat(data)
